@@ -112,6 +112,9 @@ def check(ctx, rep):
     # with C08 / C12)
     from .c08 import register_order_rule
     register_order_rule(ctx, rep, "R-CANCEL-FWD")
+    # combinators forward a cancel of their output to every input through chain_cancel (shared with C14 / C15)
+    from .c14 import _chain_cancel
+    _chain_cancel(ctx, rep, "R-CANCEL-FWD")
 
     # ------------------------------------------------------------------ R-STOPRETRY (cancel root)
     ps, it = ctx.paths(fut.methods["cancel"], rfut, depth=6, inline=_no_cb_inline, loads=(STOP,))
